@@ -10,8 +10,12 @@ package fix
 //@ spec anchored(d string, i int, t string) bool = (i == 0 || code(d, i-1) == 1) && sub(d, i, i+len(t)+1) == cat(t, "=")
 //@ spec valueAt(d string, j int) string = ite(idx(from(d, j), SOH) < 0, from(d, j), sub(from(d, j), 0, idx(from(d, j), SOH)))
 
+//@ spec hasField(d string, t string) bool = len(d) > len(t) && (idx(d, cat(SOH, t, "=")) >= 0 || hasPrefix(d, cat(t, "=")))
+//@ spec fieldVal(d string, t string) string = valueAt(d, ite(idx(d, cat(SOH, t, "=")) >= 0, idx(d, cat(SOH, t, "=")) + 1, 0) + len(t) + 1)
 //@ func ValueByTag(msg []byte, tag string) (res []byte, err error)
 //@   safety[C11]
+//@   ensures[C16,C19] @found (err == nil) == hasField(string(msg), tag)
+//@   ensures[C16,C19] @fieldval imp(err == nil, string(res) == fieldVal(string(msg), tag))
 //@   witness k = ite(idx(string(msg), cat(SOH, tag, "=")) >= 0, idx(string(msg), cat(SOH, tag, "=")) + 1, 0)
 //@   ensures[C18] @anchored imp(err == nil, anchored(string(msg), k, tag))
 //@   ensures[C18,C16] @value imp(err == nil, string(res) == valueAt(string(msg), k + len(tag) + 1))
